@@ -139,7 +139,12 @@ fn run_preempt1(case: &Case, prop: &str, dump: Option<&str>) -> Value {
     };
     add_maps(&sum, &mut faults, &mut probes);
     let (mut steps, mut switches, mut polls, mut sim_ns, mut gos, mut answered, mut inconcl) = (out0.steps, out0.switches, out0.polls, out0.now, an0.accepted_gos, an0.answered_gos, 0u64);
-    for opp in out0.opps.iter().take(1500) {
+    // budget: the session is re-run once per candidate, so the number of candidates shrinks with the cost of the
+    // base run (deterministically: by its poll count); candidates are taken evenly spaced from the recorded list
+    let budget = (150_000 / out0.polls.max(1)).clamp(16, 300) as usize;
+    let n_opps = out0.opps.len();
+    let chosen: Vec<&sched::Decision> = if n_opps <= budget { out0.opps.iter().collect() } else { (0..budget).map(|i| &out0.opps[i * n_opps / budget]).collect() };
+    for opp in chosen {
         let mut c2 = case.clone();
         c2.plan = sched::Plan::Scripted { decisions: vec![opp.clone()], oversleeps: vec![] };
         let (o, a, _) = evaluate(&c2);
